@@ -9,7 +9,14 @@ package main
 import (
 	"encoding/json"
 	"fmt"
+	"math/rand"
+	"os"
+	"path/filepath"
+	"sort"
+	"strconv"
 	"strings"
+	"unicode"
+	"unicode/utf8"
 
 	"golang.org/x/perf/benchfmt"
 )
@@ -77,6 +84,9 @@ func (c flConc) str(chars []string) string {
 }
 
 func famFmtLine(mode string, args []string) error {
+	if mode == "record" {
+		return flSoupRecord(args)
+	}
 	if mode != "replay" {
 		return fmt.Errorf("fmtline: unknown mode %q", mode)
 	}
@@ -246,4 +256,291 @@ func flReplay(c *flCase, conc flConc) Verdict {
 		return fail("badcase", "unknown kind %q", c.Kind)
 	}
 	return pass()
+}
+
+// ---------------------------------------------------------------------------
+// record: "byte soups" for FmtSoup_trace.tla
+
+type flSoupRec struct {
+	Kind  string     `json:"kind"`
+	Line  int        `json:"line"`
+	File  int        `json:"file"`
+	Name  []string   `json:"name"`
+	Iters []string   `json:"iters"`
+	NVals int        `json:"nvals"`
+	Cfg   [][][]string `json:"cfg"`
+	Unit  []string   `json:"unit"`
+	Key   []string   `json:"key"`
+	Val   []string   `json:"val"`
+}
+
+// flSoupMark is a record no specification accepts (all fields present for the JSON reader).
+func flSoupMark(kind string) flSoupRec {
+	return flSoupRec{Kind: kind, Name: []string{}, Iters: []string{}, Cfg: [][][]string{}, Unit: []string{}, Key: []string{}, Val: []string{}}
+}
+
+// flRunes splits s into one-rune strings; a byte that is not valid UTF-8 becomes
+// U+FFFD (JSON cannot carry it), consistently for lines and for reported strings.
+func flRunes(s string) []string {
+	out := []string{}
+	for len(s) > 0 {
+		r, n := utf8.DecodeRuneInString(s)
+		if r == utf8.RuneError && n == 1 {
+			out = append(out, "�")
+		} else {
+			out = append(out, s[:n])
+		}
+		s = s[n:]
+	}
+	return out
+}
+
+var flSoupBlanks = []string{" ", "\t", "  ", " \t", " ", " ", "　", "\v", "\f", "\u0085"}
+var flSoupJunk = []string{"q", "z", "w", "é", "ß", "Z", "Ω", ":", "=", "#", "-", "/", "\xff", "\xc3", "日", "k", "B", "U", "_"}
+var flSoupUnits = []string{"widgets", "x/op", "B/op", "allocs/op", "é/s", "q-z", "sec/op", "u", "%"}
+
+func flSoupWord(rng *rand.Rand, n int) string {
+	var sb strings.Builder
+	for i := 0; i < n; i++ {
+		sb.WriteString(flSoupJunk[rng.Intn(len(flSoupJunk))])
+	}
+	return sb.String()
+}
+
+func flSoupKey(rng *rand.Rand, wide bool) string {
+	first := []string{"k", "g", "p", "é", "ß", "z"}[rng.Intn(6)]
+	if wide {
+		return first + strconv.Itoa(rng.Intn(1500))
+	}
+	return first + []string{"", "os", "1", "-x", "é", "_y", "\xff"}[rng.Intn(7)]
+}
+
+func flSoupDigits(rng *rand.Rand) string {
+	n := 1 + rng.Intn(9)
+	var sb strings.Builder
+	for i := 0; i < n; i++ {
+		d := rng.Intn(10)
+		if i == 0 && d == 0 {
+			d = 1 // no leading zeros: the reader reports the number, the spec the digits
+		}
+		sb.WriteByte(byte('0' + d))
+	}
+	return sb.String()
+}
+
+// flSoupLine produces one line.  Numeric fields are pure digit strings or clearly
+// not numbers (FmtLine models "number" as "all digits"; full number syntax is C03).
+func flSoupLine(rng *rand.Rand, wide bool) string {
+	b := func() string { return flSoupBlanks[rng.Intn(len(flSoupBlanks))] }
+	switch rng.Intn(16) {
+	case 0, 1, 2:
+		return flSoupKey(rng, wide) + ":" + []string{" ", "\t", "  "}[rng.Intn(3)] + flSoupWord(rng, 1+rng.Intn(4)) + []string{"", " ", " x y"}[rng.Intn(3)]
+	case 3:
+		return flSoupKey(rng, wide) + ":" + []string{"", " ", "\t "}[rng.Intn(3)]
+	case 4:
+		return flSoupKey(rng, wide) + []string{": ", ":", " :", ": v", ":  v"}[rng.Intn(5)] + flSoupWord(rng, rng.Intn(3))
+	case 5, 6, 7, 8:
+		// well-formed benchmark line
+		s := "Benchmark" + flSoupWord(rng, rng.Intn(4)) + b() + flSoupDigits(rng)
+		for i := 0; i < 1+rng.Intn(3); i++ {
+			u := flSoupUnits[rng.Intn(len(flSoupUnits))]
+			if wide {
+				u += strconv.Itoa(rng.Intn(1500))
+			}
+			s += b() + flSoupDigits(rng) + b() + u
+		}
+		return s + []string{"", " ", "\t"}[rng.Intn(3)]
+	case 9:
+		// malformed benchmark lines
+		return []string{
+			"Benchmark" + flSoupWord(rng, 2),
+			"Benchmark" + flSoupWord(rng, 2) + " ",
+			"Benchmark" + flSoupWord(rng, 1) + " " + flSoupWord(rng, 2) + " 1 u",
+			"BenchmarkX " + flSoupDigits(rng),
+			"BenchmarkX " + flSoupDigits(rng) + " " + flSoupDigits(rng),
+			"BenchmarkX " + flSoupDigits(rng) + " q7 u",
+			"BenchmarkX " + flSoupDigits(rng) + " 5 u 6",
+			"Benchmark",
+			"Benchmark " + flSoupDigits(rng) + " 3 u",
+		}[rng.Intn(9)]
+	case 10, 11:
+		u := flSoupUnits[rng.Intn(len(flSoupUnits))]
+		if wide {
+			u += strconv.Itoa(rng.Intn(1500))
+		}
+		s := "Unit" + b() + u
+		for i := 0; i < rng.Intn(3); i++ {
+			s += b() + []string{"better", "assume", "k", "=", "a=", "é", "x=y=z"}[rng.Intn(7)] + []string{"=higher", "=lower", "=", "", "=é"}[rng.Intn(5)]
+		}
+		return s
+	case 12:
+		return []string{"Unit", "Unit ", "Unita b=c", "Uni x y=z", "unit x y=z", "U", "Unit x y=z"}[rng.Intn(7)]
+	default:
+		return []string{"", "PASS", "ok  \tpkg\t0.1s", "--- BENCH: BenchmarkX", "Key: v", " k: v", "K", ":", "k", "1k: v", "k　x: v",
+			"kK: v", "\xffk: v", "é: v", "É: v", "benchmarkX 1 1 u", flSoupWord(rng, 5)}[rng.Intn(17)]
+	}
+}
+
+func flSoupRecord(args []string) error {
+	if len(args) < 2 {
+		return fmt.Errorf("record <out.ndjson> <ntraces>")
+	}
+	n, _ := strconv.Atoi(args[1])
+	dir, err := os.MkdirTemp(os.Getenv("VERIF_WORK"), "soup")
+	if err != nil {
+		return err
+	}
+	defer os.RemoveAll(dir)
+	type event = map[string]interface{}
+	var events []event
+	classes := map[string]map[string]bool{"lower": {}, "upper": {}, "digits": {}, "ws": {}}
+	note := func(chars []string) {
+		for _, c := range chars {
+			r, _ := utf8.DecodeRuneInString(c)
+			if unicode.IsLower(r) {
+				classes["lower"][c] = true
+			}
+			if unicode.IsUpper(r) {
+				classes["upper"][c] = true
+			}
+			if r >= '0' && r <= '9' {
+				classes["digits"][c] = true
+			}
+			if unicode.IsSpace(r) {
+				classes["ws"][c] = true
+			}
+		}
+	}
+	for t := 0; t < n; t++ {
+		rng := newRand(int64(7000 + t))
+		wide := t%4 == 3 // many distinct keys and units: more than the intern table holds
+		nfiles := 1 + rng.Intn(3)
+		var paths []string
+		var texts [][]string
+		for f := 0; f < nfiles; f++ {
+			nl := 10 + rng.Intn(60)
+			if wide {
+				nl = 900 + rng.Intn(300)
+			}
+			var lines []string
+			for i := 0; i < nl; i++ {
+				lines = append(lines, flSoupLine(rng, wide))
+			}
+			if rng.Intn(5) == 0 {
+				// one very long line
+				lines = append(lines, "k:"+" "+strings.Repeat(flSoupWord(rng, 3), 3000))
+				lines = append(lines, "BenchmarkLong 7 1 u")
+			}
+			p := filepath.Join(dir, fmt.Sprintf("t%d-f%d.txt", t, f))
+			eol := []string{"\n", "\r\n"}[rng.Intn(2)]
+			data := strings.Join(lines, eol)
+			if rng.Intn(2) == 0 {
+				data += eol
+			}
+			if err := os.WriteFile(p, []byte(data), 0o644); err != nil {
+				return err
+			}
+			// a final empty line does not exist for the scanner
+			if len(lines) > 0 && lines[len(lines)-1] == "" {
+				lines = lines[:len(lines)-1]
+			}
+			paths = append(paths, p)
+			texts = append(texts, lines)
+		}
+		// read through one reused reader
+		files := benchfmt.Files{Paths: paths}
+		byPos := map[[2]int][]flSoupRec{}
+		fileIdx := map[string]int{}
+		for i, p := range paths {
+			fileIdx[p] = i + 1
+		}
+		var clones []*benchfmt.Result
+		var snaps []string
+		scan := func() (ok bool) {
+			defer func() {
+				if p := recover(); p != nil {
+					// "never panics": make the trace unacceptable instead of dying
+					byPos[[2]int{0, 0}] = append(byPos[[2]int{0, 0}], flSoupMark("panic"))
+					ok = false
+				}
+			}()
+			return files.Scan()
+		}
+		for scan() {
+			rec := files.Result()
+			fn, ln := rec.Pos()
+			r := flSoupRec{Line: ln, File: fileIdx[fn], Name: []string{}, Iters: []string{}, Cfg: [][][]string{}, Unit: []string{}, Key: []string{}, Val: []string{}}
+			switch rec := rec.(type) {
+			case *benchfmt.Result:
+				r.Kind = "result"
+				r.Name = flRunes(string(rec.Name))
+				r.Iters = flRunes(strconv.Itoa(rec.Iters))
+				r.NVals = len(rec.Values)
+				r.Cfg = [][][]string{}
+				for _, c := range rec.Config {
+					if c.File {
+						r.Cfg = append(r.Cfg, [][]string{flRunes(c.Key), flRunes(string(c.Value))})
+					} else if c.Key != ".file" {
+						r.Kind = "result-with-internal-key"
+					}
+				}
+				cl := rec.Clone()
+				clones = append(clones, cl)
+				snaps = append(snaps, fmt.Sprintf("%v|%s|%d|%v", cl.Config, cl.Name, cl.Iters, cl.Values))
+			case *benchfmt.UnitMetadata:
+				r.Kind = "unit"
+				r.Unit, r.Key, r.Val = flRunes(rec.OrigUnit), flRunes(rec.Key), flRunes(rec.Value)
+			case *benchfmt.SyntaxError:
+				r.Kind = "error"
+			}
+			byPos[[2]int{r.File, r.Line}] = append(byPos[[2]int{r.File, r.Line}], r)
+		}
+		if err := files.Err(); err != nil {
+			return fmt.Errorf("reading soup: %v", err)
+		}
+		for i, cl := range clones {
+			if got := fmt.Sprintf("%v|%s|%d|%v", cl.Config, cl.Name, cl.Iters, cl.Values); got != snaps[i] {
+				// a clone changed while reading continued: make the trace unacceptable
+				byPos[[2]int{0, 0}] = append(byPos[[2]int{0, 0}], flSoupMark("clone-changed"))
+			}
+		}
+		events = append(events, event{"ev": "reset", "t": t})
+		for f, lines := range texts {
+			events = append(events, event{"ev": "file", "file": f + 1, "t": t})
+			for i, l := range lines {
+				chars := flRunes(l)
+				// iteration counts are logged without leading zeros by the reader; the
+				// generator's digit strings may have them: normalise the line's view
+				note(chars)
+				recs := byPos[[2]int{f + 1, i + 1}]
+				if recs == nil {
+					recs = []flSoupRec{}
+				}
+				delete(byPos, [2]int{f + 1, i + 1})
+				events = append(events, event{"ev": "line", "t": t, "chars": chars, "recs": recs})
+			}
+		}
+		if len(byPos) > 0 {
+			// records positioned at lines that do not exist
+			events = append(events, event{"ev": "line", "t": t, "chars": []string{}, "recs": []flSoupRec{flSoupMark("stray-record")}})
+		}
+	}
+	ew, err := newEventWriter(args[0])
+	if err != nil {
+		return err
+	}
+	hdr := event{"ev": "classes"}
+	for k, m := range classes {
+		l := []string{}
+		for c := range m {
+			l = append(l, c)
+		}
+		sort.Strings(l)
+		hdr[k] = l
+	}
+	ew.emit(hdr)
+	for _, e := range events {
+		ew.emit(e)
+	}
+	return ew.close()
 }
